@@ -20,6 +20,7 @@ import (
 	"path/filepath"
 	"reflect"
 	"sort"
+	"strings"
 )
 
 type bindEntry struct {
@@ -113,6 +114,13 @@ func bindingsPath(verifDir, prop string) string {
 // collectBindings: the variable lists of the functions whose contracts carry this property.
 func (p *Program) collectBindings(prop string, into map[string][]bindEntry) {
 	for _, ct := range p.allCon {
+		if ct.Kind == "extern" {
+			// a trusted contract on a function of the repository follows a rename of that function too
+			if fi := p.findFuncAnyPkg(ct); fi != nil {
+				into["$extern:"+ct.PkgPath+"."+ct.Key] = p.localsOf(fi)
+			}
+			continue
+		}
 		if ct.Kind != "func" || !hasProp(ct.Props, prop) {
 			continue
 		}
@@ -371,8 +379,105 @@ func (p *Program) applyFuncRenames(prop string, recorded map[string][]bindEntry)
 			}
 		}
 	}
+	// trusted (extern) contracts that named a function of the repository which is gone under that name
+	for _, ct := range p.allCon {
+		if ct.Kind != "extern" {
+			continue
+		}
+		old, ok := recorded["$extern:"+ct.PkgPath+"."+ct.Key]
+		if !ok || p.findFuncAnyPkg(ct) != nil {
+			continue
+		}
+		name := ct.Key
+		prefix := ""
+		if i := lastDot(ct.Key); i >= 0 {
+			prefix, name = ct.Key[:i+1], ct.Key[i+1:]
+		}
+		_ = name
+		var cands []*FuncInfo
+		for _, fi := range p.funcs {
+			if fi.Pkg == nil || fi.Decl == nil {
+				continue
+			}
+			keys := contractKeys(fi.Obj)
+			short := keys[len(keys)-1]
+			fprefix := ""
+			if i := lastDot(short); i >= 0 {
+				fprefix = short[:i+1]
+			}
+			if fprefix != prefix {
+				continue
+			}
+			if _, was := recorded["$fn:"+fi.Pkg.PkgPath+"."+short]; was {
+				continue
+			}
+			known := false
+			for _, f := range recorded["$functions:"+fi.Pkg.PkgPath] {
+				if f.Name == short {
+					known = true
+				}
+			}
+			if known || len(recorded["$functions:"+fi.Pkg.PkgPath]) == 0 {
+				continue // existed before, or nothing is known about that package's functions
+			}
+			cur := p.localsOf(fi)
+			if len(cur) != len(old) {
+				continue
+			}
+			same := true
+			for i := range cur {
+				if cur[i].Type != old[i].Type {
+					same = false
+					break
+				}
+			}
+			if same {
+				cands = append(cands, fi)
+			}
+		}
+		if len(cands) != 1 {
+			continue
+		}
+		keys := contractKeys(cands[0].Obj)
+		newKey := keys[len(keys)-1]
+		for _, k := range []string{ct.Key, ct.PkgName + "." + ct.Key} {
+			if p.contracts[k] == ct {
+				delete(p.contracts, k)
+			}
+		}
+		notes = append(notes, fmt.Sprintf("rename tolerance: the trusted contract on %s (written in %s) follows the function, now called %s", ct.Key, ct.PkgName, newKey))
+		ct.Key = newKey
+		ct.Target = newKey
+		for _, k := range []string{ct.Key, ct.PkgName + "." + ct.Key} {
+			if _, dup := p.contracts[k]; !dup {
+				p.contracts[k] = ct
+			}
+		}
+	}
 	sort.Strings(notes)
 	return notes
+}
+
+// findFuncAnyPkg: the repository function an extern contract names (the contract may be written in a caller's package).
+func (p *Program) findFuncAnyPkg(ct *Contract) *FuncInfo {
+	var found *FuncInfo
+	n := 0
+	for _, fi := range p.funcs {
+		if fi.Decl == nil || fi.Pkg == nil || !strings.HasPrefix(fi.Pkg.PkgPath, "lunar/") {
+			continue
+		}
+		for _, k := range contractKeys(fi.Obj) {
+			if k == ct.Key {
+				found = fi
+				n++
+				break
+			}
+		}
+	}
+	if n == 1 {
+		return found
+	}
+	return nil
 }
 
 func lastDot(s string) int {
@@ -477,7 +582,9 @@ func renameInContract(ct *Contract, alias map[string]string) bool {
 						return
 					}
 				}
-				walk(v.Fun)
+				if _, plain := v.Fun.(*ast.Ident); !plain {
+					walk(v.Fun) // a bare name in call position is a spec builtin or a function (old(...), len(...)), never a renamed variable
+				}
 				for _, a := range v.Args {
 					walk(a)
 				}
